@@ -13,6 +13,7 @@ use std::collections::{BTreeMap, BTreeSet};
 
 use ag_harness::*;
 use alpenglow::consensus::pool_verif::VerifFinalityTracker;
+use alpenglow::consensus::Pool as _;
 use alpenglow::types::Slot;
 use trackkit::*;
 
@@ -194,6 +195,126 @@ impl FinCase {
     }
 }
 
+/// Pool-level case: the same worlds delivered as certificates / `add_block` to a real `PoolImpl`.
+struct PoolRun {
+    c: PoolCase,
+    spec: Spec,
+    /// accepted certificates (kind, slot, hash)
+    accepted: BTreeSet<(CK, u64, u64)>,
+    cum_fin: Vec<B>,
+    cum_ifin: Vec<B>,
+    cum_iskip: Vec<u64>,
+    class: u64,
+    max_slot: u64,
+}
+
+impl PoolRun {
+    fn new(f: &CertFactory) -> Self {
+        Self { c: PoolCase::new(f), spec: Spec::default(), accepted: BTreeSet::new(), cum_fin: vec![], cum_ifin: vec![], cum_iskip: vec![], class: 0, max_slot: 0 }
+    }
+
+    fn apply(&mut self, rec: &mut Recorder, rt: &tokio::runtime::Runtime, f: &mut CertFactory, op: &POp) {
+        if self.c.dead {
+            return;
+        }
+        let line = op.line();
+        let before = self.spec.view();
+        let hi_before = self.c.pool.finalized_slot().inner();
+        let out = self.c.apply(rt, f, op);
+        rec.step(&line, &out.line);
+        rec.count(&format!("pool:{}", out.verdict));
+        self.class = fnv(self.class, &format!("{}{}{}", out.verdict, out.announced.len(), out.fin_events.len()));
+        if out.verdict == "panic" {
+            rec.oracle(false, "pool-panic", || format!("{line}: the pool panicked on a consistent certificate set: {:?}", self.spec));
+            return;
+        }
+        match op {
+            POp::Cert(k, s, h) => {
+                self.max_slot = self.max_slot.max(*s);
+                let far = hi_before + 2 * 18000;
+                let want_oob = *s < before.watermark || *s >= far;
+                rec.oracle((out.verdict == "oob") == want_oob, "pool-bounds-wrong", || {
+                    format!("{line}: verdict {} but the decided prefix ends at {} (highest finalized {hi_before}): a certificate must be refused exactly when its slot is below the decided prefix (or >= 2 epochs ahead)", out.verdict, before.watermark)
+                });
+                if out.verdict != "oob" {
+                    let had = match k {
+                        CK::NF => self.accepted.contains(&(*k, *s, *h)),
+                        _ => self.accepted.iter().any(|(k2, s2, _)| k2 == k && s2 == s),
+                    };
+                    rec.oracle((out.verdict == "dup") == had, "pool-duplicate-wrong", || format!("{line}: verdict {} but certificate held before: {had}", out.verdict));
+                }
+                if out.verdict == "ok" {
+                    self.accepted.insert((*k, *s, *h));
+                    match k {
+                        CK::N => self.spec.add(&FOp::Notar((*s, *h))),
+                        CK::F => self.spec.add(&FOp::Final(*s)),
+                        CK::FF => self.spec.add(&FOp::FastFinal((*s, *h))),
+                        _ => {}
+                    }
+                }
+            }
+            POp::Block(b, p) => {
+                self.max_slot = self.max_slot.max(b.0);
+                if b.0 >= before.watermark {
+                    self.spec.add(&FOp::Parent(*b, *p));
+                }
+            }
+            _ => {}
+        }
+        for ev in &out.fin_events {
+            if let Some(b) = ev.fin {
+                self.cum_fin.push(b);
+            }
+            self.cum_ifin.extend(ev.ifin.iter().copied());
+            self.cum_iskip.extend(ev.iskip.iter().copied());
+        }
+        let v = self.spec.view();
+        let hi = self.c.pool.finalized_slot().inner();
+        let fu = self.c.pool.verif_first_unpruned_slot().inner();
+        rec.oracle(hi == v.highest, "pool-highest-wrong", || format!("{line}: finalized_slot() = {hi}, certificates say {}", v.highest));
+        rec.oracle(fu == v.watermark, "pool-watermark-wrong", || format!("{line}: watermark {fu}, decided prefix ends at {} ({:?})", v.watermark, self.spec));
+        // retained state: nothing below the watermark, nothing beyond the slots ever mentioned (+1)
+        let ret = self.c.pool.verif_retained_slots();
+        let (root, prs) = self.c.pool.verif_parent_ready_states();
+        let s2n = self.c.pool.verif_s2n_waiting();
+        let (fst, fpar) = self.c.pool.verif_finality_state();
+        let low = ret.iter().map(|s| s.inner()).chain(prs.iter().map(|e| e.0.inner())).chain(s2n.iter().map(|e| e.1.0.inner())).chain(fst.iter().map(|e| e.0.inner())).chain(fpar.iter().map(|e| e.0.0.inner())).min();
+        let high = ret.iter().map(|s| s.inner()).chain(prs.iter().map(|e| e.0.inner())).max();
+        rec.oracle(low.is_none_or(|l| l >= fu) && root.inner() == fu, "pool-retains-below-watermark", || {
+            format!("{line}: state retained for slot {low:?} (parent-ready root {}) although everything below {fu} is decided: {}", root.inner(), self.c.dump())
+        });
+        rec.oracle(high.is_none_or(|h| h <= self.max_slot + 1), "pool-retains-unmentioned", || format!("{line}: state for slot {high:?} beyond the highest slot mentioned {}", self.max_slot));
+        let n_ret = ret.len() + prs.len() + s2n.len() + fst.len() + fpar.len();
+        let suffix = (self.max_slot + 2).saturating_sub(fu) as usize;
+        let nblocks = self.spec.parent.len() + 8;
+        rec.oracle(n_ret <= 3 * suffix + 2 * nblocks, "pool-retained-not-proportional", || format!("{line}: {n_ret} retained entries for an undecided suffix of {suffix} slots"));
+        // reports: exact, once
+        let mut rep: Vec<B> = self.cum_fin.iter().chain(self.cum_ifin.iter()).copied().collect();
+        let n_rep = rep.len();
+        rep.sort();
+        rep.dedup();
+        rec.oracle(rep.len() == n_rep, "pool-reported-twice", || format!("{line}: finalized={:?} implicitly={:?}", self.cum_fin, self.cum_ifin));
+        rec.oracle(self.cum_fin.iter().all(|b| v.direct.contains(b)), "pool-unjustified-finalization", || format!("{line}: reported {:?}, justified {:?}", self.cum_fin, v.direct));
+        let repset: BTreeSet<B> = rep.iter().copied().filter(|b| *b != (0, 0)).collect();
+        let want: BTreeSet<B> = v.final_star.iter().copied().filter(|b| *b != (0, 0)).collect();
+        rec.oracle(repset == want, "pool-reports-not-exact", || format!("{line}: cumulative reports {repset:?}, implied by certificates and links {want:?} ({:?})", self.spec));
+        let skset: BTreeSet<u64> = self.cum_iskip.iter().copied().collect();
+        rec.oracle(skset == v.impl_skipped && skset.len() == self.cum_iskip.len(), "pool-skips-not-exact", || format!("{line}: implicit skips {:?}, expected {:?}", self.cum_iskip, v.impl_skipped));
+        // queries about retained slots agree with the accepted certificates
+        for s in fu..=self.max_slot {
+            let sl = Slot::new(s);
+            let want_final = self.accepted.iter().any(|(k, s2, _)| *s2 == s && matches!(k, CK::F | CK::FF));
+            let want_notar = self.accepted.iter().find(|(k, s2, _)| *s2 == s && *k == CK::N).map(|e| e.2);
+            let got_notar = self.c.pool.get_notarized_block(sl).map(hid);
+            rec.oracle(
+                self.c.pool.has_final_cert(sl) == want_final && got_notar == want_notar && self.c.pool.has_notar_cert(sl) == want_notar.is_some(),
+                "pool-query-changed",
+                || format!("{line}: slot {s}: has_final_cert={} (held: {want_final}), notarized block {got_notar:?} (held: {want_notar:?})", self.c.pool.has_final_cert(sl)),
+            );
+        }
+    }
+}
+
 fn permutations<T: Clone>(xs: &[T]) -> Vec<Vec<T>> {
     if xs.len() <= 1 {
         return vec![xs.to_vec()];
@@ -318,5 +439,83 @@ fn main() {
         rec.end_case(c.class, nontrivial);
     }
 
-    rec.finish(&args, serde_json::json!({ "worlds": n_world, "perm_sets": n_sets, "chaos": n_chaos }));
+    // ---- shape pool-world: worlds delivered to a real PoolImpl as certificates and blocks
+    let rt = tokio::runtime::Builder::new_current_thread().build().expect("runtime");
+    let mut factory = CertFactory::new();
+    let n_pool = if args.thorough { 6000 } else { 500 };
+    for i in 0..n_pool {
+        let w = gen_world(&mut rng, if i % 7 == 0 { 13 } else { 8 });
+        let mut ops = world_pops(&mut rng, &w);
+        for _ in 0..rng.below(3) {
+            let o = *rng.pick(&ops);
+            ops.push(o);
+        }
+        match rng.below(4) {
+            0 => {}
+            1 => ops.reverse(),
+            _ => rng.shuffle(&mut ops),
+        }
+        // late re-delivery of everything after the fact, and a far-future certificate
+        if rng.chance(1, 3) {
+            let mut again = ops.clone();
+            rng.shuffle(&mut again);
+            again.truncate(6);
+            ops.extend(again);
+        }
+        if rng.chance(1, 10) {
+            let k = rng.range(0, 2);
+            ops.push(POp::Cert(CK::S, w.top + 36000 - 1 + k, 0));
+        }
+        rec.begin_case("pool-world");
+        let mut r = PoolRun::new(&factory);
+        for op in &ops {
+            r.apply(&mut rec, &rt, &mut factory, op);
+        }
+        let nontrivial = !r.cum_ifin.is_empty() || !r.cum_iskip.is_empty();
+        rec.end_case(r.class, nontrivial);
+    }
+
+    // ---- shape pool-scripted: fixed regression scenarios (consistent inputs)
+    let scripted: Vec<Vec<POp>> = vec![
+        // a fork block (2,9) of parent (1,1) waits for the parent certificate; slots 2 and 3 are decided first;
+        // the parent's notarization then finalizes slot 1, prunes slot 2, and must not look the pruned child up
+        vec![
+            POp::Block((2, 9), (1, 1)),
+            POp::Cert(CK::F, 1, 0),
+            POp::Cert(CK::FF, 2, 8),
+            POp::Cert(CK::FF, 3, 7),
+            POp::Cert(CK::N, 1, 1),
+            POp::Cert(CK::S, 4, 0),
+        ],
+        // finalization through add_block (gap closes by a parent link): the pool must prune in the same step
+        vec![
+            POp::Cert(CK::FF, 3, 3),
+            POp::Cert(CK::N, 1, 1),
+            POp::Cert(CK::S, 2, 0),
+            POp::Block((1, 1), (0, 0)),
+            POp::Block((3, 3), (1, 1)),
+            POp::Block((2, 5), (1, 1)),
+            POp::Cert(CK::N, 1, 1),
+            POp::Cert(CK::N, 3, 3),
+        ],
+        // benign order fast-final, final, notar of one slot with a gap below (D14)
+        vec![
+            POp::Cert(CK::N, 2, 5),
+            POp::Cert(CK::FF, 2, 5),
+            POp::Cert(CK::F, 2, 0),
+            POp::Block((2, 5), (1, 4)),
+            POp::Block((1, 4), (0, 0)),
+            POp::Cert(CK::N, 1, 4),
+        ],
+    ];
+    for ops in &scripted {
+        rec.begin_case("pool-scripted");
+        let mut r = PoolRun::new(&factory);
+        for op in ops {
+            r.apply(&mut rec, &rt, &mut factory, op);
+        }
+        rec.end_case(r.class, true);
+    }
+
+    rec.finish(&args, serde_json::json!({ "worlds": n_world, "perm_sets": n_sets, "chaos": n_chaos, "pool_worlds": n_pool }));
 }
